@@ -66,7 +66,7 @@ pub fn gen_workload(sub: u64) -> Workload {
         }
     }
     let binary_flag = ["", "", "--binary", "--text"][rng.below(4)];
-    let mode = ["lines", "lines", "lines", "count", "list", "context", "multiline"][rng.below(7)];
+    let mode = ["lines", "lines", "lines", "count", "list", "context", "multiline", "swarm", "swarm"][rng.below(9)];
     let via_stdin = rng.chance(1, 7);
     if via_stdin {
         corpus.files.truncate(1);
@@ -114,6 +114,20 @@ pub fn run_workload(sub: u64, acc: &mut Acc, ctx: &Ctx, _thorough: bool) {
         "list" => args.push("-l".into()),
         "context" => args.extend(["-n".into(), "--no-heading".into(), "--with-filename".into(), "-C1".into()]),
         "multiline" => args.extend(["-n".into(), "--no-heading".into(), "--with-filename".into(), "-U".into()]),
+        "swarm" => {
+            // any combination of output-shaping flags: whatever they do, no NUL byte of a
+            // searched file may reach stdout (only that claim is judged in this mode)
+            let mut r = Rng::new(sub ^ 0x5A4);
+            for f in ["-o", "-rX", "-b", "--column", "--vimgrep", "-v", "-w", "--max-columns=30", "--max-columns-preview", "--passthru", "--json", "--heading", "-c", "--count-matches", "-l", "--files-without-match", "-A2", "-B1", "-C3", "--trim", "--crlf", "-U", "--multiline-dotall", "-L", "-m1", "-m3", "--no-line-number", "--with-filename", "--no-filename", "--context-separator=::", "--field-match-separator=|", "--include-zero", "--one-file-system", "--no-ignore", "-uu"] {
+                if r.chance(1, 7) {
+                    args.push(f.to_string());
+                }
+            }
+            // combinations the command line itself rejects or that change the question
+            if args.iter().any(|a| a == "--json") {
+                args.retain(|a| !matches!(a.as_str(), "-c" | "--count-matches" | "-l" | "--files-without-match" | "--vimgrep" | "--heading" | "-rX" | "--include-zero"));
+            }
+        }
         _ => {}
     }
     args.extend(gen_harmless_flags(&mut Rng::new(sub ^ 0xF1A6), &["-i", "-S"]));
@@ -154,6 +168,9 @@ pub fn run_workload(sub: u64, acc: &mut Acc, ctx: &Ctx, _thorough: bool) {
     acc.mix.inc(&format!("mode:{}", w.mode));
     if w.via_stdin {
         acc.mix.inc("via-stdin");
+    }
+    if w.mode == "swarm" {
+        acc.mix.inc(&format!("swarm:exit-{}", got.code));
     }
     if w.failing_explicit.is_some() {
         acc.faults.add("explicit-file-fails-before-traversal", got.fired("open_err") + got.fired("read_err"));
